@@ -3,7 +3,7 @@ import itertools
 from vlib.core import Query
 
 SHIMS = ["uatomic_seq.h", "upool_depth0.h"]
-UW = ["urefcount_release:3", "ubuf_free:2", "ubuf_block_mem_free:2", "ubuf_dup:2", "ubuf_block_common_clean.0:2",
+UW = ["probe_check_order.0:26", "env_count.0:26", "urefcount_release:3", "ubuf_free:2", "ubuf_block_mem_free:2", "ubuf_dup:2", "ubuf_block_common_clean.0:2",
       "ubuf_block_get.0:3", "ubuf_block_delete.0:3", "ubuf_block_common_dup.0:2", "strlen.0:40", "strcmp.0:40", "strncmp.0:40", "memcmp.0:40"]
 PIPES = {1: "idem", 2: "skip", 3: "setattr", 4: "setflowdef", 5: "probe_uref", 6: "delay", 7: "htons", 8: "null", 9: "match_attr", 10: "helper_built", 11: "helper_hold"}
 OPN = {0: "def(block.)", 1: "def(block.other.)", 2: "def(pic.)", 3: "out(S0)", 4: "out(S1)", 5: "out(NULL)", 6: "input", 7: "flush",
